@@ -192,33 +192,42 @@ structure BlockState where
   maxNumEcBytes : Int := 0
   blocks : List (List Nat × List Nat) := []
 
+/-- body of the first loop of `interleaveWithECBytes` (block `i`) -/
+def blockStep (K : Kernels) (bits : Bits) (numTotalBytes numDataBytes numRSBlocks : Int) (i : Int) (st : BlockState) :
+    Res BlockState := do
+  let (numDataBytesInBlock, numEcBytesInBlock, err) := K.blockSizes numTotalBytes numDataBytes numRSBlocks i
+  if err then .error .writer
+  let size := numDataBytesInBlock
+  let dataBytes ← toBytes bits (8 * st.dataBytesOffset) size
+  let ecBytes ← generateECBytes dataBytes numEcBytesInBlock
+  pure { dataBytesOffset := st.dataBytesOffset + numDataBytesInBlock
+         maxNumDataBytes := if st.maxNumDataBytes < size then size else st.maxNumDataBytes
+         maxNumEcBytes := if st.maxNumEcBytes < (ecBytes.length : Int) then ecBytes.length else st.maxNumEcBytes
+         blocks := st.blocks ++ [(dataBytes, ecBytes)] }
+
+/-- inner loop of the interleaving: `for _, block := range blocks { if i < len(sel block) { result.AppendBits(.., 8) } }` -/
+def interleaveRow (sel : List Nat × List Nat → List Nat) (i : Nat) (blocks : List (List Nat × List Nat))
+    (result : Bits) : Bits :=
+  blocks.foldl (fun (result : Bits) block =>
+    match (sel block)[i]? with
+    | some (b : Nat) => appendBitsIgn (b : Int) 8 result
+    | none => result) result
+
+/-- one of the two interleaving double loops: `for i := 0; i < maxN; i++ { for _, block := range blocks {…} }` -/
+def interleaveBytes (sel : List Nat × List Nat → List Nat) (maxN : Int) (blocks : List (List Nat × List Nat))
+    (result : Bits) : Bits :=
+  (List.range maxN.toNat).foldl (fun (result : Bits) i => interleaveRow sel i blocks result) result
+
 /-- `interleaveWithECBytes(bits, numTotalBytes, numDataBytes, numRSBlocks)`; also returns the block pairs -/
 def interleaveBlocks (K : Kernels) (bits : Bits) (numTotalBytes numDataBytes numRSBlocks : Int) :
     Res (Bits × List (List Nat × List Nat)) := do
   if sizeInBytes bits ≠ numDataBytes then .error .writer
-  let st ← forRange 0 numRSBlocks (fun i (st : BlockState) => do
-    let (numDataBytesInBlock, numEcBytesInBlock, err) := K.blockSizes numTotalBytes numDataBytes numRSBlocks i
-    if err then .error .writer
-    let size := numDataBytesInBlock
-    let dataBytes ← toBytes bits (8 * st.dataBytesOffset) size
-    let ecBytes ← generateECBytes dataBytes numEcBytesInBlock
-    pure { dataBytesOffset := st.dataBytesOffset + numDataBytesInBlock
-           maxNumDataBytes := if st.maxNumDataBytes < size then size else st.maxNumDataBytes
-           maxNumEcBytes := if st.maxNumEcBytes < (ecBytes.length : Int) then ecBytes.length else st.maxNumEcBytes
-           blocks := st.blocks ++ [(dataBytes, ecBytes)] }) {}
+  let st ← forRange 0 numRSBlocks (blockStep K bits numTotalBytes numDataBytes numRSBlocks) {}
   if numDataBytes ≠ st.dataBytesOffset then .error .writer
   -- First, place data blocks.
-  let result : Bits := (List.range st.maxNumDataBytes.toNat).foldl (fun (result : Bits) i =>
-    st.blocks.foldl (fun (result : Bits) block =>
-      match block.1[i]? with
-      | some (b : Nat) => appendBitsIgn (b : Int) 8 result
-      | none => result) result) []
+  let result := interleaveBytes (·.1) st.maxNumDataBytes st.blocks []
   -- Then, place error correction blocks.
-  let result : Bits := (List.range st.maxNumEcBytes.toNat).foldl (fun (result : Bits) i =>
-    st.blocks.foldl (fun (result : Bits) block =>
-      match block.2[i]? with
-      | some (b : Nat) => appendBitsIgn (b : Int) 8 result
-      | none => result) result) result
+  let result := interleaveBytes (·.2) st.maxNumEcBytes st.blocks result
   if numTotalBytes ≠ sizeInBytes result then .error .writer
   pure (result, st.blocks)
 
